@@ -1,6 +1,7 @@
 package main
 
 import (
+	"runtime/debug"
 	"os/exec"
 	"encoding/json"
 	"bytes"
@@ -149,6 +150,7 @@ func (e *Env) runTx(f func(ctx sdk.Context) (string, error)) (res string) {
 	defer func() {
 		if r := recover(); r != nil {
 			e.lastPanic = fmt.Sprint(r)
+			e.lastPanicSite = panicSite(debug.Stack())
 			res = "panic"
 		}
 	}()
@@ -1078,4 +1080,24 @@ func lineName(s string) string {
 		}
 	}
 	return s
+}
+
+// panicSite: the innermost function of the bridge or oracle module on the stack of a recovered panic.
+func panicSite(stack []byte) string {
+	for _, l := range strings.Split(string(stack), "\n") {
+		if i := strings.Index(l, "github.com/MinterTeam/mhub2/module/x/"); i >= 0 && !strings.HasPrefix(strings.TrimSpace(l), "/") {
+			f := l[i+len("github.com/MinterTeam/mhub2/module/x/"):]
+			if j := strings.Index(f, "("); j > 0 && !strings.Contains(f[:j], "/") {
+				f = f[:j]
+			} else if j := strings.LastIndex(f, "("); j > 0 {
+				f = f[:j]
+			}
+			f = strings.NewReplacer("(", "", ")", "", "*", "").Replace(f)
+			if k := strings.LastIndex(f, "."); k >= 0 {
+				f = f[k+1:]
+			}
+			return f
+		}
+	}
+	return "?"
 }
